@@ -633,7 +633,58 @@ def t_noise(rng, case):
                              {"kind": "raw", "text": "#[derive(Debug, Clone, Default)]\npub struct %s {\n    pub line: String,\n}" % decoy})
     if rng.random() < 0.4:
         c["files"]["src/only_noise_%d.rs" % rng.randint(0, 99)] = [{"kind": "raw", "text": "// nothing but a comment\nfn unused() {}"}]
+    add_shadows(rng, c)
     return c
+
+
+SHADOW_TYPE = ["#[derive(Debug, Clone, PartialEq)]\npub enum %s { Alpha, Beta }", "pub enum %s { Only }",
+               "#[derive(Debug)]\npub struct %s { pub shadow: u8 }", "pub struct %s;", "pub type %s = u32;",
+               "pub mod %s { pub fn inner() {} }", "pub trait %s { fn id(&self) -> u32; }"]
+SHADOW_VALUE = ["#[allow(non_upper_case_globals)]\npub const %s: u32 = 7;", "#[allow(non_snake_case)]\npub fn %s() -> u32 { 1 }",
+                "#[allow(non_upper_case_globals)]\npub static %s: &str = \"x\";"]
+
+
+def add_shadows(rng, c):
+    """Noise items that SHARE NAMES with real items: non-serde enum / struct / type alias / mod / trait / const /
+    fn / static named like a used serde type, a command or an event payload type, put into files that sort
+    before and after the real definition (a new first and a new last file among them) and, where Rust's
+    namespaces allow it (value namespace next to a braced struct, a module next to a fn), into the same file."""
+    files = c["files"]
+    where = {}          # name -> files that already hold an item of that name
+    types, cmds = [], []
+    for rel in sorted(files):
+        for it in files[rel]:
+            if it["kind"] in ("struct", "enum", "fn"):
+                where.setdefault(it["name"], set()).add(rel)
+                if it["kind"] == "fn" and is_command(it):
+                    cmds.append((it["name"], rel))
+                elif it["kind"] != "fn" and is_serde(it):
+                    types.append((it["name"], rel, it))
+    if not types:
+        return
+    first, last = "src/aaa_shadow.rs", "src/zzz_shadow.rs"
+    for name, rel, it in rng.sample(types, min(len(types), rng.randint(2, 4))):
+        targets = [f for f in list(files) + [first, last] if f not in where.get(name, set())]
+        for f in rng.sample(targets, min(len(targets), rng.randint(1, 3))) + ([last] if last in targets and rng.random() < 0.7 else []):
+            if f in where.get(name, set()):
+                continue
+            files.setdefault(f, [])
+            files[f].insert(rng.randint(0, len(files[f])), {"kind": "raw", "text": rng.choice(SHADOW_TYPE) % name})
+            where.setdefault(name, set()).add(f)
+        if it["kind"] == "struct" and not it.get("unit") and rng.random() < 0.5:
+            k = files[rel].index(it)
+            files[rel].insert(rng.choice([k, k + 1]), {"kind": "raw", "text": rng.choice(SHADOW_VALUE) % name})
+    for name, rel in rng.sample(cmds, min(len(cmds), 2)):
+        targets = [f for f in list(files) + [first, last] if f not in where.get(name, set())]
+        if targets:
+            f = rng.choice(targets)
+            files.setdefault(f, [])
+            txt = rng.choice(["pub fn %s(x: u32) -> u32 { x }", "#[allow(non_camel_case_types)]\npub struct %s;",
+                              "#[inline]\nfn %s() {}"]) % name
+            files[f].insert(rng.randint(0, len(files[f])), {"kind": "raw", "text": txt})
+            where.setdefault(name, set()).add(f)
+        if rng.random() < 0.4:
+            files[rel].append({"kind": "raw", "text": "pub mod %s { pub const INNER: u8 = 1; }" % name})
 
 
 def t_reorder(rng, case):
